@@ -175,6 +175,14 @@ CLAIMED = {
             "No frame payload exceeds M for all M in 2^14..2^24-1 and all block lengths up to 3M; "
             "blocks are contiguous with END_HEADERS only on the last fragment; each successful "
             "call appends exactly the frames it specifies.", "7/C02"),
+    'C17': ("compositional symbolic execution: every catalogue entry x every peer frame (incl. "
+            "padded / priority-flagged variants, three configurations), decoder outputs with a "
+            "fully symbolic field or any hpack exception, every parser failure the real "
+            "FrameBuffer reports, CONTINUATION chains around the limit; the only check is the "
+            "class of the exception leaving receive_data",
+            "For every behaviour the hyperframe / hpack contracts allow, h2's own code raises "
+            "only ProtocolError (or returns events); all field values, lengths and header bytes "
+            "within the stated bounds.", "7/C17"),
 }
 
 NOT_YET = {}
